@@ -427,8 +427,82 @@ def rule_entry(ctx: Ctx) -> None:
     ctx.tri("7-entry", fo, fo.node, bool(full) and isinstance(full[0].value, ast.Constant) and full[0].value.value is True, not full, "call_full_output = run(..., full_output=True)", "call_full_output does not ask run() for the full output", key="full-output")
 
 
+def rule_publish_after_complete(ctx: Ctx) -> None:
+    """A value is put into the pipeline's internal memo only once it is complete.  Registering the (still empty) container first and
+    filling it afterwards publishes a half-built value: an interruption of the filling (KeyboardInterrupt, an exception, a second
+    thread making the same first call) leaves the partial set in the memo, and every later call answers from it."""
+    from ..flow import param_mutated_in_closure
+
+    P = ctx.prog
+    pl = P.cls(f"{BASE}.Pipeline")
+    MUT = {"add", "append", "extend", "update", "insert", "setdefault", "discard", "remove", "pop", "clear", "__setitem__"}
+    n, bad = 0, []
+    for fn in pl.methods.values():
+        if "_internal_cache" not in norm(fn.node):
+            continue
+        cfg = ctx.cfg(fn)
+        published: list[tuple[str, int]] = []
+        for nd in cfg.nodes(lambda s_: isinstance(s_, (ast.Assign, ast.AnnAssign))):
+            st = cfg.stmt[nd]
+            tg = st.targets if isinstance(st, ast.Assign) else [st.target]
+            val = st.value
+            if val is None:
+                continue
+            if isinstance(val, ast.Call) and isinstance(val.func, ast.Attribute) and val.func.attr == "setdefault" and "_internal_cache" in norm(val.func.value):
+                published += [(t.id, nd) for t in tg if isinstance(t, ast.Name)]
+            for t in tg:
+                if isinstance(t, ast.Subscript) and "_internal_cache" in norm(t.value) and isinstance(val, ast.Name):
+                    published.append((val.id, nd))
+        for name, nd in published:
+            n += 1
+            later = cfg.reachable_from(nd) - {nd}
+            for m in sorted(later):
+                st = cfg.stmt.get(m)
+                if st is None:
+                    continue
+                for part in header_parts(st):
+                    for c in ast.walk(part):
+                        if not isinstance(c, ast.Call):
+                            continue
+                        if isinstance(c.func, ast.Attribute) and c.func.attr in MUT and isinstance(c.func.value, ast.Name) and c.func.value.id == name:
+                            bad.append((fn, st, name))
+                        for callee in ctx.cg.resolve_callable(fn, c.func):
+                            from ..flow import bind_args
+
+                            for prm, a_ in bind_args(c, callee).items():
+                                if isinstance(a_, ast.Name) and a_.id == name and param_mutated_in_closure(ctx, callee, prm):
+                                    bad.append((fn, st, name))
+    ctx.add("7-entry", bad[0][0] if bad else pl.methods["arg_combinations"], bad[0][1] if bad else pl.methods["arg_combinations"].node, not bad,
+            f"what is put into the internal memo is complete when it is stored ({n} store(s))" if not bad else
+            f"`{bad[0][2]}` is already registered in the pipeline's internal memo when `{norm(bad[0][1])[:60]}` still fills it: if the filling is interrupted (exception, Ctrl-C, a concurrent first call) the half-built value stays "
+            "in the memo and every later pipeline(...) / run / func for that output answers from it", key="publish-after-complete")
+    ctx.floor("7-entry.memo-stores", n, 1)
+
+
+def rule_entry_captures_no_keyword(ctx: Ctx) -> None:
+    """`pipeline(name, **kwargs)` forwards ARBITRARY user parameter names as keywords.  Every other parameter of such an entry
+    point must be positional-only: an ordinary parameter `output_name` would capture the keyword of a pipeline argument that
+    happens to be called `output_name` - the call then selects another output or fails, while run()/func() still work."""
+    P = ctx.prog
+    n = 0
+    for q in (f"{BASE}.Pipeline.__call__", "pipefunc._pipeline._base._PipelineAsFunc.__call__"):
+        fn = P.functions.get(q)
+        if fn is None or fn.node.args.kwarg is None:
+            continue
+        kw = fn.node.args.kwarg.arg
+        forwards = any(isinstance(c, ast.Call) and any((k.arg is None and norm(k.value) == kw) or (k.arg == "kwargs" and norm(k.value) == kw) for k in c.keywords) for c in ast.walk(fn.node))
+        if not forwards:
+            continue
+        n += 1
+        capturing = [a.arg for a in [*fn.node.args.args, *fn.node.args.kwonlyargs] if a.arg not in ("self", "cls")]
+        ctx.add("7-entry", fn, fn.node, not capturing, f"{fn.cls.name if fn.cls else ''}.__call__ takes its own parameters positional-only; every keyword is a pipeline argument" if not capturing else
+                f"{fn.cls.name if fn.cls else ''}.__call__ has the ordinary parameter(s) {capturing} next to **{kw}: a pipeline argument of that name can no longer be passed by keyword - it is captured "
+                "by the entry point itself (another output is computed, or TypeError), while run() and func() accept it", key=f"entry-captures {fn.qualname.rsplit('.', 2)[-2]}")
+    ctx.floor("7-entry.kwargs-entries", n, 1)
+
+
 def check(ctx: Ctx) -> None:
-    for rule in (rule_precedence, rule_defaults_siblings, rule_graph_edges, rule_recursion_state, rule_once, rule_routing, rule_surplus, rule_order_free, _invalidate, rule_entry):
+    for rule in (rule_precedence, rule_defaults_siblings, rule_graph_edges, rule_recursion_state, rule_once, rule_routing, rule_surplus, rule_order_free, _invalidate, rule_entry, rule_entry_captures_no_keyword, rule_publish_after_complete):
         ctx.run(rule)
 
 
